@@ -1758,6 +1758,18 @@ def _guarded(ctx, M, g, info, bl, budget, label):
                                                   "F(grid.points[:3], deriv=2, only_radial_deriv=True)\ngrid.spherical_average(vals)"))
 
 
+SNIP_POINTS = """import numpy as np
+from grid.atomgrid import AtomGrid
+from grid.onedgrid import OneDGrid
+g = AtomGrid(OneDGrid(np.array([0.2, 0.7, 1.5]), np.array([0.3, 0.5, 0.8]), (0, np.inf)), degrees=[5], center=np.array({center!r}))
+f = np.exp(-np.sum((g.points - g.center) ** 2, axis=1)) * (1 + (g.points - g.center)[:, 0])
+p0 = g.points.copy()
+q = g.points; q -= np.array([0.7, -0.4, 1.1])            # the caller works with its array
+assert np.array_equal(g.points, p0), 'editing the array returned by AtomGrid.points changed the grid'
+assert np.allclose(g.interpolate(f)(p0), f, atol=1e-10), 'interpolant does not reproduce the grid values'
+"""
+
+
 def oracle(ctx: Ctx, budget: str):
     M = _mods()
     rng = ctx.rng
@@ -1799,6 +1811,20 @@ def oracle(ctx: Ctx, budget: str):
             # radius; the property is about the exact points, so such shells are examined about the origin
             kw["center"] = np.zeros(3)
         g, info = _atom_grid(ctx, M, **kw)
+        # the array handed out by `points` is the caller's: shifting it in place (distances to another atom, …) before the first
+        # decomposition must leave the grid, hence the harmonic basis built from it later, untouched
+        P0 = np.array(g.points, dtype=float, copy=True)
+        try:
+            q = g.points
+            q -= np.array([0.7, -0.4, 1.1])
+        except ValueError:
+            pass
+        ctx.tagc("oracle:points-handed-out")
+        if not np.array_equal(np.asarray(g.points, dtype=float), P0):
+            ctx.fail("oracle", "atomgrid.points:handed-out", "an in-place edit of the array returned by AtomGrid.points (before the first decomposition) changed the points of the grid "
+                     f"(centre {info['center']}): the harmonic basis and every spline built afterwards belong to other points", witness=dict(info=info),
+                     snippet=SNIP_POINTS.format(center=info["center"]))
+            continue
         dmin = int(min(g.degrees))
         Lmax = dmin // 2
         L = Lmax if ip % 2 == 0 else rng.randrange(0, Lmax + 1)
